@@ -74,7 +74,11 @@ func (w *World) timedDecide(p *kernel.Parked) (kernel.Decision, time.Duration) {
 				if h < at {
 					s.Fault(k)
 					w.lastAnswer[p.Digest] = k
-					return kernel.Decision{Kind: k, N: 503}, lat
+					n := int64(503)
+					if k == "rpc.unavailable" {
+						n = []int64{14, 8, 10, 4}[h%4]
+					}
+					return kernel.Decision{Kind: k, N: n}, lat
 				}
 			}
 			if pf["short"] > 0 && avail >= 2 && h < at+8*pf["short"] {
@@ -302,6 +306,10 @@ func (w *World) TimedRun(s *kernel.Sim) {
 	wg.Wait()
 	w.timedHarvest()
 	w.mu.Lock()
+	if p.Deadline > 0 && !s.Violated() && w.ctx.Err() != nil {
+		w.cancelled = true // the caller's deadline ended the run
+		s.Probe("cancel.deadline")
+	}
 	done := w.done
 	if done && !s.Violated() {
 		w.judgeDone()
